@@ -36,6 +36,22 @@ impl Default for NotSendSync {
 #[derive(Debug, PartialEq)]
 pub struct NoDefault(pub u8);
 
+/// A type with an INHERENT `fn default()` next to its `Default` impl, giving different values: payload fields are
+/// `Default::default()` (the trait), whatever else the type offers under that name.
+#[derive(Debug, PartialEq, Clone)]
+pub struct Inh(pub i32);
+impl Inh {
+    #[allow(clippy::should_implement_trait)]
+    pub fn default() -> Inh {
+        Inh(11)
+    }
+}
+impl Default for Inh {
+    fn default() -> Self {
+        Inh(0)
+    }
+}
+
 /// Payload for `const K: usize` enums (`[u8; K]: Default` does not exist for generic K).
 #[derive(Debug, PartialEq, Clone)]
 pub struct Arr<const K: usize>(pub [u8; K]);
